@@ -7,6 +7,8 @@ PROP = 'C20'
 I = z3.IntSort(); R = z3.RealSort()
 MAXV = 2 ** 20          # voxels per axis admitted by the contracts (the unsigned conversion itself is undefined beyond 2^32)
 AX = ('x', 'y', 'z')
+import fractions
+EPS = z3.RealVal(fractions.Fraction(1, 2 ** 52))
 
 
 def g(view, this, f):
@@ -21,7 +23,7 @@ def pre_update(C):
     for a in AX:
         lo, hi = C.val('min_' + a), C.val('max_' + a)
         out.append(('box-%s-non-empty' % a, lo < hi))
-        out.append(('box-%s-fewer-than-2^20-voxels' % a, (hi - lo) / s < MAXV - 2))
+        out.append(('box-%s-fewer-than-2^20-voxels' % a, (hi + EPS - lo) / s < MAXV - 2))
     return out
 
 
@@ -35,9 +37,13 @@ def post_update(cls):
         for a in AX:
             lo, hi = C.val('min_' + a), C.val('max_' + a)
             p = z3.Real('any_pos_' + a)           # free in the goal: the clause holds for every position
-            idx = z3.ToInt((p - g(n, this, 'min_%s_' % a)) / s)
+            q = (p - g(n, this, 'min_%s_' % a)) / s
+            # every point of the declared box satisfies the precondition of the index computation (get_3d_voxel_index) ...
+            out.append(('every-point-of-the-box-is-indexable-%s' % a, z3.Implies(z3.And(lo <= p, p <= hi), z3.And(q >= 0, q < MAXV))))
+            # ... and the voxel it falls into exists, the points of the upper face being assigned to the last voxel
+            idx = z3.If(z3.ToInt(q) < nb[a] - 1, z3.ToInt(q), nb[a] - 1)
             out.append(('every-point-of-the-box-has-a-voxel-%s' % a, z3.Implies(z3.And(lo <= p, p <= hi), z3.And(idx >= 0, idx < nb[a]))))
-            out.append(('at-least-one-voxel-%s' % a, nb[a] >= 1))
+            out.append(('at-least-one-voxel-%s' % a, z3.And(nb[a] >= 1, nb[a] < MAXV)))
         lst = n.sub(this, cls + '.voxel_lst_')
         out.append(('one-slot-per-voxel', n.len(lst) == nb['x'] * nb['y'] * nb['z']))
         k = z3.Int('any_voxel')
@@ -75,8 +81,8 @@ def pre_3d(C):
     for a in AX:
         p = C.val('pos_' + a)
         lo = g(o, C.this, 'min_%s_' % a); s = g(o, C.this, 'voxel_size_')
-        # the position lies in a voxel of the grid (what update_dimensions guarantees for every point of the declared box)
-        out.append(('pos-%s-inside' % a, z3.And(p >= lo, z3.ToInt((p - lo) / s) < g(o, C.this, 'nb_voxels_%s_' % a))))
+        # what update_dimensions guarantees for every point of the declared box
+        out.append(('pos-%s-indexable' % a, z3.And((p - lo) / s >= 0, (p - lo) / s < MAXV)))
     return out
 
 
@@ -85,7 +91,8 @@ def post_3d(C):
     out = []
     for i, a in enumerate(AX):
         p = C.val('pos_' + a); lo = g(o, C.this, 'min_%s_' % a); s = g(o, C.this, 'voxel_size_')
-        out.append(('voxel-%s-is-floor' % a, C.ret.f[str(i)] == z3.ToInt((p - lo) / s)))
+        fl = z3.ToInt((p - lo) / s); nb_ = g(o, C.this, 'nb_voxels_%s_' % a)
+        out.append(('voxel-%s-is-floor-clamped-to-the-last-voxel' % a, C.ret.f[str(i)] == z3.If(fl < nb_ - 1, fl, nb_ - 1)))
         out.append(('voxel-%s-in-range' % a, z3.And(C.ret.f[str(i)] >= 0, C.ret.f[str(i)] < g(o, C.this, 'nb_voxels_%s_' % a))))
     return out
 
@@ -121,18 +128,52 @@ def pre_neigh(C):
     return out
 
 
-def post_neigh(C):
+def post_neigh_bounds(C):
+    """state on entry to the triple loop: the loop bounds cover the +-1 block around the query voxel, clipped to the grid"""
+    o = C.old
+    nb = [g(o, C.this, 'nb_voxels_%s_' % a) for a in AX]
+    out = []
+    for i, a in enumerate(AX):
+        q = C.val('object_voxel_%s_id' % a)
+        lo = C.local('start_voxel_%s_id' % a); hi = C.local('end_voxel_%s_id' % a)
+        out.append(('block-%s-starts-at-or-before-the-previous-voxel' % a, z3.And(lo >= 0, lo <= z3.If(q >= 1, q - 1, 0))))
+        out.append(('block-%s-ends-after-the-next-voxel' % a, z3.And(hi <= nb[i], hi >= z3.If(q + 2 <= nb[i], q + 2, nb[i]))))
+    out.append(('outer-loop-starts-at-the-first-x', C.local('voxel_x_id') == C.local('start_voxel_x_id')))
+    return out
+
+
+def loop_vars(C, st=None):
+    return [C.local('voxel_%s_id' % a, st) for a in AX]
+
+
+def pre_neigh_body(C):
+    """one iteration of the innermost loop for arbitrary loop variables inside the bounds established by the prefix contract"""
+    o = C.old
+    nx, ny, nz = [g(o, C.this, 'nb_voxels_%s_' % a) for a in AX]
+    lst = o.sub(C.this, 'uspg_4d<face *>.voxel_lst_')
+    out = [('grid-invariant', grid_inv(o, C.this)), ('one-slot-per-voxel', o.len(lst) == nx * ny * nz)]
+    for v, n_, a in zip(loop_vars(C, C.pre_state), (nx, ny, nz), AX):
+        out.append(('loop-variable-%s-in-the-grid' % a, z3.And(v >= 0, v < n_)))
+    res = [v for k, v in C.pre_state.env.items() if C.e.var_names.get(k) == 'neighboring_objects'][0].ref
+    k = z3.Int('any_voxel_index')
+    out.append(('result-is-a-local-list-not-a-voxel-of-the-grid', C.e.uf('elem_v', I, I)(res) != lst))
+    return out
+
+
+def post_neigh_body(C):
     o, n = C.old, C.new
     nx, ny, nz = [g(o, C.this, 'nb_voxels_%s_' % a) for a in AX]
     lst = o.sub(C.this, 'uspg_4d<face *>.voxel_lst_')
-    q = [C.val('object_voxel_%s_id' % a) for a in AX]
-    v = [z3.Int('nb_voxel_' + a) for a in AX]
-    inside = z3.And(*[z3.And(v[i] >= 0, v[i] < n_, v[i] >= q[i] - 1, v[i] <= q[i] + 1) for i, n_ in enumerate((nx, ny, nz))])
-    src = n.elem(lst, v[2] * nx * ny + v[1] * nx + v[0])
-    res = C.ret.ref
-    copied = n.arr('flist.copied_from')[res][src]
+    x, y, z = loop_vars(C, C.pre_state)
+    src = o.elem(lst, z * nx * ny + y * nx + x)
+    res = [v for k, v in C.post_state.env.items() if C.e.var_names.get(k) == 'neighboring_objects'][0].ref
+    t = z3.Int('any_object')
+    cnt_o = o.arr('flist.count'); cnt_n = n.arr('flist.count')
+    x2, y2, z2 = loop_vars(C, C.post_state)
     nonempty = o.f(src, 'flist.len') != 0
-    return [('every-adjacent-voxel-is-visited', z3.Implies(z3.And(inside, nonempty), copied >= 1))]
+    return [('content-of-the-visited-voxel-is-added-to-the-result', cnt_n[res][t] == z3.If(nonempty, cnt_o[res][t] + cnt_o[src][t], cnt_o[res][t])),
+            ('grid-content-untouched', cnt_n[src] == cnt_o[src]),
+            ('loop-variables-not-modified-by-the-body', z3.And(x2 == x, y2 == y, z2 == z))]
 
 
 # ---- lemmas (mathematics used to compose the contracts; proved by the same back ends) ---------------------------------
@@ -143,9 +184,11 @@ def lemmas(reg):
     reg.lemma('flattening-is-injective', PROP, [box, flat(x, y, z) == flat(x2, y2, z2)], z3.And(x == x2, y == y2, z == z2),
               note='distinct voxels of the grid have distinct slots', inputs=[x, y, z, x2, y2, z2, nx, ny, nz])
     p, q, m, s = z3.Reals('lp lq lm ls')
-    d = z3.ToInt((q - m) / s) - z3.ToInt((p - m) / s)
-    reg.lemma('points-within-one-voxel-size-are-in-adjacent-voxels', PROP, [s > 0, q - p <= s, p - q <= s], z3.And(d >= -1, d <= 1),
-              note='per axis: |q-p| <= voxel size implies the voxel indices differ by at most one', inputs=[p, q, m, s])
+    nn = z3.Int('lnn')
+    cl = lambda t: z3.If(z3.ToInt(t) < nn - 1, z3.ToInt(t), nn - 1)
+    d = cl((q - m) / s) - cl((p - m) / s)
+    reg.lemma('points-within-one-voxel-size-are-in-adjacent-voxels', PROP, [s > 0, nn >= 1, q - p <= s, p - q <= s], z3.And(d >= -1, d <= 1),
+              note='per axis: |q-p| <= voxel size implies the (clamped) voxel indices differ by at most one', inputs=[p, q, m, s, nn])
 
 
 def build(reg):
@@ -157,6 +200,9 @@ def build(reg):
                      safety={'wrap', 'narrowing'}, assigns=[], name='uspg_abstract::get_3d_voxel_index(double x3)'))
     reg.add(Contract('uspg_4d<face *>::place_object', PROP, signature='const size_t)', pre=pre_place, post=post_place, safety={'bounds'},
                      assigns=['flist.count', 'flist.len'], name='uspg_4d<face *>::place_object(object, voxel id)'))
-    reg.add(Contract('uspg_4d<face *>::get_neighborhood', PROP, signature='(const unsigned int, const unsigned int, const unsigned int)', pre=pre_neigh, post=post_neigh,
-                     safety={'bounds', 'wrap'}, unroll=3, name='uspg_4d<face *>::get_neighborhood(voxel ids)'))
+    sig = '(const unsigned int, const unsigned int, const unsigned int)'
+    reg.add(Contract('uspg_4d<face *>::get_neighborhood', PROP, signature=sig, pre=pre_neigh, post=post_neigh_bounds, prefix_loop=0,
+                     safety={'wrap'}, name='uspg_4d<face *>::get_neighborhood(voxel ids)::<loop bounds>'))
+    reg.add(Contract('uspg_4d<face *>::get_neighborhood', PROP, signature=sig, pre=pre_neigh_body, post=post_neigh_body, slice_loop=2,
+                     safety={'bounds', 'wrap'}, name='uspg_4d<face *>::get_neighborhood(voxel ids)::<loop body>'))
     lemmas(reg)
